@@ -40,8 +40,8 @@ def EqvAllows (B : List Version) : Prop :=
 /-- the constructor on the text of a simple constraint yields a leaf of the fragment that admits `p` exactly
 when the constraint does -/
 def MkVerOK (B : List Version) (n : String) (p : Version) : Prop :=
-  ∀ (rc : VC) (s : Single), rc.WF → (∀ c ∈ rc.flatten, RegMember B c) → rc.isSimple = .ok true →
-    mkSingleOfC n (.ver rc) = .ok s →
+  ∀ (rc : VC) (s : Single), rc.WF → (∀ c ∈ rc.flatten, RegMember B c) → rc.isEmpty = false → rc.isAny = false →
+    rc.isSimple = .ok true → mkSingleOfC n (.ver rc) = .ok s →
     VerLeaf B n (.single s) ∧ ∀ vc, s.c = .ver vc → vc.allowsPlain p = rc.allowsPlain p
 
 theorem regular_of_members {B : List Version} {p : Version} (hr : Regular B p) {a b : VC}
@@ -137,7 +137,7 @@ macro "ver_tail" : tactic => `(tactic| (
   · rw [if_pos rfl] at h
     obtain ⟨s, hs, h⟩ := bind_ok.1 h
     rw [pure_ok] at h; cases h
-    obtain ⟨g, e⟩ := HM r0 s hw0 hm0 hb hs
+    obtain ⟨g, e⟩ := HM r0 s hw0 hm0 (by simpa [LeafC.isEmpty] using q1) (by simpa [LeafC.isAny] using q2) hb hs
     refine ⟨(M.good_leaf _).2 g, ?_⟩
     obtain ⟨hns, _, vs, hvs, hws, hms⟩ := g
     rw [M.sem_leaf]
